@@ -57,6 +57,10 @@ NInf      == [t |-> "fsp", k |-> "ninf"]
 NaN       == [t |-> "fsp", k |-> "nan"]
 BigV(neg, d) == [t |-> "big", neg |-> neg, d |-> d]
 DecV(ds)  == [t |-> "dec", ds |-> ds]
+\* a decimal literal denotes zero iff every digit of its mantissa (the part before an exponent) is 0
+DecIsZero(ds) == LET E == {i \in 1..Len(ds) : ds[i] \in {69, 101}}
+                     m == IF E = {} THEN Len(ds) ELSE (CHOOSE i \in E : \A j \in E : i <= j) - 1
+                 IN \A i \in 1..m : ds[i] \in {43, 45, 46, 48}
 IsNum(v) == v.t \in {"int", "flt", "nz", "fsp", "big", "dec"}
 IsInt(v) == v.t \in {"int", "big"}
 IsStr(v) == v.t \in {"str", "bytes"}
@@ -591,5 +595,8 @@ CharCode(ch) ==  \* one printable ASCII character (a TLA+ string of length one) 
     [] ch = "}" -> 125
     [] ch = "~" -> 126
 \* TLA+ string literal -> code points (TLC evaluates Len and SubSeq on strings)
+\* the Unicode property White_Space (PropList.txt): what trim / ltrim / rtrim remove
+IsWhiteSpace(c) == (c >= 9 /\ c <= 13) \/ c \in {32, 133, 160, 5760, 8232, 8233, 8239, 8287, 12288} \/ (c >= 8192 /\ c <= 8202)
+
 Ascii(s) == [i \in 1..Len(s) |-> CharCode(SubSeq(s, i, i))]
 =============================================================================
